@@ -148,7 +148,7 @@ def _place(s, i):
             if m:
                 p = Place(p.local, p.proj + [('constindex', int(m.group(1)), int(m.group(2)))])
             else:
-                m = re.fullmatch(r'(\d+):(-?\d*)', inside)
+                m = re.fullmatch(r'(\d*):(-?\d*)', inside) or re.fullmatch(r'(\d+)\.\.(\d+)', inside)
                 if m:
                     p = Place(p.local, p.proj + [('subslice', inside)])
                 else:
